@@ -346,6 +346,8 @@ def vmpi_plan(tier):
     if quick:
         add('vmpi-dev', 'd3', dcf, dev)
     else:
+        # closures of these five take > 10^6 states each (not closed in 120 s per scenario): a deeper bound instead; the longest first
+        add('vmpi-dev', 'd6', [(2, 2, 2, 2), (2, 1, 2, 1), (1, 1, 1, 1)], ['g1.g1/g1.g1', 'p1.a1/a2.p0', 'p1.p1.p1/-', 'g1.g1.g1/-', 'p4096.g1/a3'])
         add('vmpi-dev', 'd5', dcf, dev)
         add('vmpi-dev', 'd4', dcf, ['p1.g1.p1/a1', 'a1.p1.a2.g1/a3.a4', 'p1.p1.p1.p1.p1/-', 'g1.g1.g1.g1/-', 'p4096.p4096/p4096.p4096', 'b8192.p1.b1/a1'])
     # -- one or two transfers (with or without an AM), search to closure
@@ -354,8 +356,6 @@ def vmpi_plan(tier):
     if not quick:
         xf += ['p4096.p1/-', 'g4096.g0/-', 'g1.p4096/-', 'p4096/p4096', 'g4096/g1', 'a1.p1/a5', 'g1.a1/b8192']
     add('vmpi-xfer', 'full', xcf, xf)
-    if not quick:       # closures that take minutes each: last, under the deadline
-        add('vmpi-xfer', 'full', [(2, 2, 2, 2), (1, 1, 1, 1), (2, 1, 2, 1)], ['p1.p1.p1/-', 'g1.g1.g1/-', 'p1.a1/a2.p0', 'p4096.g1/a3', 'g1.g1/g1.g1'])
     for leg, mode, sc in S:
         r0, r1 = sc.split(':')[2].split('/')
         collide = ('p' in r0 and 'g' in r1) or ('g' in r0 and 'p' in r1)
@@ -446,7 +446,7 @@ def vmpi_legs(ctx, exe_v, exe_r):
         from concurrent.futures import ThreadPoolExecutor
         with ThreadPoolExecutor(max_workers=2) as ex:
             cf = ex.submit(conformance, ctx, exe_v, exe_r, CONF_QUICK if quick else CONF_QUICK + [sc for (leg, mode, sc) in plan if leg in ('vmpi-am', 'vmpi-dev')][::7], 120 if quick else 600)
-            deadline = int(os.environ.get('C14_VMPI_DEADLINE', 45 if quick else 900))
+            deadline = int(os.environ.get('C14_VMPI_DEADLINE', 45 if quick else 600))
             ctx.run_engine(exe_v, ['--scen-file', sf, '--jobs', os.environ.get('C14_VMPI_JOBS', '6' if quick else '8'), '--deadline', str(deadline), '--scen-deadline', '25' if quick else '300',
                                    '--known', known or 'none', '--outdir', '/verif/out'] + (['--strict-dup'] if os.environ.get('C14_VMPI_STRICT_DUP') else []), label='vmpi', timeout=deadline + 120)
             cf.result()
